@@ -894,7 +894,7 @@ def _refresh_elementwise_output_shape(node: ir.Node) -> None:
     if not outs:
         return
     ins = _node_inputs(node)
-    if node.op_type == "CastLike":
+    if _is_standard_onnx_node(node, "CastLike"):
         # CastLike's second input supplies only the target dtype. It does not
         # participate in broadcasting, so the output shape is always the shape
         # of the data input.
@@ -957,7 +957,7 @@ def _collect_transpose_elementwise_chain(
         producer = _producer_node(nodes, val)
         if producer is None:
             return None
-        if producer.op_type == "Transpose":
+        if _is_standard_onnx_node(producer, "Transpose"):
             if source_transpose is None:
                 source_transpose = producer
             elif source_transpose is not producer:
@@ -1002,7 +1002,7 @@ def _collect_transpose_elementwise_forest(
         producer = _producer_node(nodes, val)
         if producer is None:
             return None
-        if producer.op_type == "Transpose":
+        if _is_standard_onnx_node(producer, "Transpose"):
             transpose_nodes.add(producer)
             continue
         if not _is_elementwise_node(producer):
@@ -1030,7 +1030,7 @@ def remove_redundant_transpose_reduce_ir(graph: ir.Graph) -> None:
         changed = False
         nodes = list(graph)
         for node in nodes:
-            if node.op_type != "Transpose":
+            if not _is_standard_onnx_node(node, "Transpose"):
                 continue
 
             # Pattern: T1 -> Reduce -> T2 (node)
@@ -1042,7 +1042,7 @@ def remove_redundant_transpose_reduce_ir(graph: ir.Graph) -> None:
                 continue
 
             reducer = _producer_node(nodes, node_input)
-            if reducer is None or reducer.op_type != "ReduceMean":
+            if reducer is None or not _is_standard_onnx_node(reducer, "ReduceMean"):
                 continue
 
             reducer_ins = _node_inputs(reducer)
@@ -1053,7 +1053,7 @@ def remove_redundant_transpose_reduce_ir(graph: ir.Graph) -> None:
                 continue
 
             t1 = _producer_node(nodes, reducer_input)
-            if t1 is None or t1.op_type != "Transpose":
+            if t1 is None or not _is_standard_onnx_node(t1, "Transpose"):
                 continue
 
             perm2 = _transpose_perm(node)
@@ -1211,7 +1211,7 @@ def _collect_add_transpose_forest(
     Transpose(perm_fwd) and external outputs are wrapped by one
     Transpose(perm_inv). Returns None when the pattern does not match.
     """
-    if start.op_type != "Add":
+    if not _is_standard_onnx_node(start, "Add"):
         return None
 
     perm_fwd: Optional[List[int]] = None
@@ -1226,7 +1226,7 @@ def _collect_add_transpose_forest(
         node = queue.pop(0)
         if node in add_set:
             continue
-        if node.op_type != "Add":
+        if not _is_standard_onnx_node(node, "Add"):
             return None
 
         ins = _node_inputs(node)
@@ -1237,13 +1237,13 @@ def _collect_add_transpose_forest(
         transpose_input_count = 0
         for iv in ins:
             prod = _producer_node(nodes, iv)
-            if prod is not None and prod.op_type == "Add":
+            if prod is not None and _is_standard_onnx_node(prod, "Add"):
                 add_input_count += 1
                 if prod not in add_set:
                     # Keep traversal strictly forward from the selected root.
                     return None
                 continue
-            if prod is None or prod.op_type != "Transpose":
+            if prod is None or not _is_standard_onnx_node(prod, "Transpose"):
                 return None
             perm = _transpose_perm(prod)
             if perm is None:
@@ -1267,11 +1267,11 @@ def _collect_add_transpose_forest(
             return None
         consumers = _consumer_nodes(nodes, out)
         for consumer in consumers:
-            if consumer.op_type == "Add":
+            if _is_standard_onnx_node(consumer, "Add"):
                 if consumer not in add_set:
                     queue.append(consumer)
                 continue
-            if consumer.op_type != "Transpose":
+            if not _is_standard_onnx_node(consumer, "Transpose"):
                 return None
             perm = _transpose_perm(consumer)
             if perm is None:
@@ -1310,7 +1310,7 @@ def remove_redundant_transpose_add_forests_ir(graph: ir.Graph) -> None:
         changed = False
         nodes = list(cast(NodeSeq, graph))
         for start in nodes:
-            if start.op_type != "Add":
+            if not _is_standard_onnx_node(start, "Add"):
                 continue
 
             match = _collect_add_transpose_forest(nodes, start)
@@ -1326,7 +1326,7 @@ def remove_redundant_transpose_add_forests_ir(graph: ir.Graph) -> None:
                 ins = _node_inputs(add_node)
                 for idx, iv in enumerate(ins):
                     prod = _producer_node(nodes, iv)
-                    if prod is None or prod.op_type != "Transpose":
+                    if prod is None or not _is_standard_onnx_node(prod, "Transpose"):
                         continue
                     perm = _transpose_perm(prod)
                     if perm is None or perm != perm_fwd:
@@ -1391,7 +1391,7 @@ def remove_redundant_transpose_pairs_ir(graph: ir.Graph) -> None:
         # Pass -1: collapse Add chains surrounded by transposes (NHWC <-> NCHW)
         visited_adds: Set[ir.Node] = set()
         for start in nodes:
-            if start.op_type != "Add":
+            if not _is_standard_onnx_node(start, "Add"):
                 continue
             if start in visited_adds:
                 continue
@@ -1404,7 +1404,7 @@ def remove_redundant_transpose_pairs_ir(graph: ir.Graph) -> None:
             prev: Optional[ir.Node] = None
             cur: Optional[ir.Node] = start
             while cur is not None:
-                if cur.op_type != "Add":
+                if not _is_standard_onnx_node(cur, "Add"):
                     ok = False
                     break
                 ins = _node_inputs(cur)
@@ -1422,7 +1422,7 @@ def remove_redundant_transpose_pairs_ir(graph: ir.Graph) -> None:
                     if prod is not None and prod is prev:
                         has_prev_input = True
                         continue
-                    if prod is None or prod.op_type != "Transpose":
+                    if prod is None or not _is_standard_onnx_node(prod, "Transpose"):
                         ok = False
                         break
                     perm = _transpose_perm(prod)
@@ -1452,13 +1452,17 @@ def remove_redundant_transpose_pairs_ir(graph: ir.Graph) -> None:
                     ok = False
                     break
                 consumers = _consumer_nodes(nodes, out)
-                add_consumers = [c for c in consumers if c.op_type == "Add"]
-                other_consumers = [c for c in consumers if c.op_type != "Add"]
+                add_consumers = [
+                    c for c in consumers if _is_standard_onnx_node(c, "Add")
+                ]
+                other_consumers = [
+                    c for c in consumers if not _is_standard_onnx_node(c, "Add")
+                ]
                 if len(add_consumers) > 1:
                     ok = False
                     break
                 for consumer in other_consumers:
-                    if consumer.op_type != "Transpose":
+                    if not _is_standard_onnx_node(consumer, "Transpose"):
                         ok = False
                         break
                     perm = _transpose_perm(consumer)
@@ -1496,7 +1500,7 @@ def remove_redundant_transpose_pairs_ir(graph: ir.Graph) -> None:
                 ins = _node_inputs(node)
                 for idx, iv in enumerate(ins):
                     prod = _producer_node(nodes, iv)
-                    if prod is None or prod.op_type != "Transpose":
+                    if prod is None or not _is_standard_onnx_node(prod, "Transpose"):
                         continue
                     perm = _transpose_perm(prod)
                     if perm is None or perm != perm_fwd:
@@ -1514,7 +1518,7 @@ def remove_redundant_transpose_pairs_ir(graph: ir.Graph) -> None:
                 if out is None:
                     continue
                 for consumer in _consumer_nodes(nodes, out):
-                    if consumer.op_type != "Transpose":
+                    if not _is_standard_onnx_node(consumer, "Transpose"):
                         continue
                     perm = _transpose_perm(consumer)
                     if perm is None or perm != perm_inv:
@@ -1537,7 +1541,7 @@ def remove_redundant_transpose_pairs_ir(graph: ir.Graph) -> None:
         # Pass -0.5: fold inverse transpose around elementwise DAG with
         # multiple transpose inputs (e.g., scale + residual add).
         for t2_node in nodes:
-            if t2_node.op_type != "Transpose":
+            if not _is_standard_onnx_node(t2_node, "Transpose"):
                 continue
             t2_in = _first_input(t2_node)
             if not isinstance(t2_in, ir.Value):
@@ -1573,7 +1577,7 @@ def remove_redundant_transpose_pairs_ir(graph: ir.Graph) -> None:
                 for consumer in _consumer_nodes(nodes, out):
                     if consumer in elem_nodes:
                         continue
-                    if consumer.op_type != "Transpose":
+                    if not _is_standard_onnx_node(consumer, "Transpose"):
                         ok = False
                         break
                     perm = _transpose_perm(consumer)
@@ -1642,7 +1646,7 @@ def remove_redundant_transpose_pairs_ir(graph: ir.Graph) -> None:
             continue
         # Pass 0: fold inverse transpose pairs around elementwise-only chains
         for t2_node in nodes:
-            if t2_node.op_type != "Transpose":
+            if not _is_standard_onnx_node(t2_node, "Transpose"):
                 continue
             t2_in = _first_input(t2_node)
             if not isinstance(t2_in, ir.Value):
@@ -1715,7 +1719,7 @@ def remove_redundant_transpose_pairs_ir(graph: ir.Graph) -> None:
         i = 0
         while i < len(nodes):
             n = nodes[i]
-            if n.op_type != "Transpose":
+            if not _is_standard_onnx_node(n, "Transpose"):
                 i += 1
                 continue
             T1 = n
@@ -1748,7 +1752,7 @@ def remove_redundant_transpose_pairs_ir(graph: ir.Graph) -> None:
                             break
                         cur = next_nodes[0]
                         continue
-                    if m.op_type == "Transpose":
+                    if _is_standard_onnx_node(m, "Transpose"):
                         chain_nodes.append(m)
                         T2 = m
                     break
@@ -1815,7 +1819,7 @@ def remove_redundant_transpose_pairs_ir(graph: ir.Graph) -> None:
                 # Find direct Transpose consumers that cancel with T1
                 removed_any = False
                 for consumer in consumers:
-                    if consumer.op_type != "Transpose":
+                    if not _is_standard_onnx_node(consumer, "Transpose"):
                         continue
                     T2 = consumer
                     perm2 = _transpose_perm(T2)
@@ -2006,7 +2010,7 @@ def remove_identity_reshapes_ir(graph: ir.Graph) -> None:
         changed = False
         nodes = list(graph)
         for node in list(nodes):
-            if node.op_type != "Reshape":
+            if not _is_standard_onnx_node(node, "Reshape"):
                 continue
             ins = _node_inputs(node)
             outs = _node_outputs(node)
@@ -2281,7 +2285,7 @@ def _match_mul_sigmoid_silu_inputs(
 ) -> tuple[ir.Value, ir.Node] | None:
     for sigmoid_output, passthrough in ((lhs, rhs), (rhs, lhs)):
         sigmoid_node = _producer_node(nodes, sigmoid_output)
-        if sigmoid_node is None or sigmoid_node.op_type != "Sigmoid":
+        if sigmoid_node is None or not _is_standard_onnx_node(sigmoid_node, "Sigmoid"):
             continue
         sigmoid_inputs = _node_inputs(sigmoid_node)
         if len(sigmoid_inputs) != 1:
@@ -2342,7 +2346,8 @@ def rewrite_mul_sigmoid_as_swish_ir(graph: ir.Graph) -> None:
         changed = False
         nodes = list(graph)
         for node in nodes:
-            if node.op_type != "Mul":
+            # An @onnx_function call node may be named "Mul" / "Sigmoid" too.
+            if not _is_standard_onnx_node(node, "Mul"):
                 continue
             inputs = _node_inputs(node)
             if len(inputs) != 2:
@@ -2414,7 +2419,7 @@ def rewrite_mul_rsqrt_as_div_ir(graph: ir.Graph) -> None:
         changed = False
         nodes = list(graph)
         for node in nodes:
-            if node.op_type != "Mul":
+            if not _is_standard_onnx_node(node, "Mul"):
                 continue
             mul_inputs = _node_inputs(node)
             if len(mul_inputs) != 2:
@@ -2427,7 +2432,7 @@ def rewrite_mul_rsqrt_as_div_ir(graph: ir.Graph) -> None:
                     if DEBUG:
                         _dbg("rewrite_mul_rsqrt skip: no producer", _v_name(inv_val))
                     continue
-                if div_node.op_type != "Div":
+                if not _is_standard_onnx_node(div_node, "Div"):
                     if DEBUG:
                         _dbg(
                             "rewrite_mul_rsqrt skip: producer not Div", div_node.op_type
@@ -2453,7 +2458,7 @@ def rewrite_mul_rsqrt_as_div_ir(graph: ir.Graph) -> None:
                     if DEBUG:
                         _dbg("rewrite_mul_rsqrt skip: denominator producer missing")
                     continue
-                if denom_producer.op_type != "Sqrt":
+                if not _is_standard_onnx_node(denom_producer, "Sqrt"):
                     if DEBUG:
                         _dbg(
                             "rewrite_mul_rsqrt skip: denominator producer not Sqrt",
@@ -2504,7 +2509,7 @@ def _read_scalar_bool_from_value_or_constant(
     if producer is None:
         return None
     node = producer
-    if node.op_type != "Constant":
+    if not _is_standard_onnx_node(node, "Constant"):
         return None
 
     for output in _node_outputs(node):
@@ -2540,7 +2545,7 @@ def inline_dropout_training_mode_constants_ir(graph: ir.Graph) -> None:
     false_value: Optional[ir.Value] = None
 
     for idx, n in enumerate(nodes):
-        if n.op_type != "Dropout":
+        if not _is_standard_onnx_node(n, "Dropout"):
             continue
         ins = _node_inputs(n)
         if len(ins) < 3:
@@ -2564,7 +2569,7 @@ def inline_dropout_training_mode_constants_ir(graph: ir.Graph) -> None:
             except ValueError:
                 pidx = -1
 
-            if pidx != -1 and producer.op_type == "Not":
+            if pidx != -1 and _is_standard_onnx_node(producer, "Not"):
                 _dbg_tm("tm producer is Not")
                 not_in = _first_input(producer)
                 if isinstance(not_in, ir.Value) and not_in.is_graph_input():
@@ -2689,7 +2694,7 @@ def remove_orphan_transposes_ir(graph: ir.Graph) -> None:
         to_remove: List[ir.Node] = []
 
         for node in nodes:
-            if node.op_type != "Transpose":
+            if not _is_standard_onnx_node(node, "Transpose"):
                 continue
 
             outputs = _node_outputs(node)
